@@ -73,7 +73,7 @@ TNext ==
     /\ LET e == TraceLog[l]
            bad == TLCGet(3)
        IN /\ \A i \in 1..Len(bad) : PrintT(<<"REJECT", e.tid, l, bad[i][1], bad[i][2]>>)
-          /\ IF bad = <<>> THEN TRUE ELSE TLCSet(2, TLCGet(2) + 1)
+          /\ IF bad = <<>> THEN TRUE ELSE TLCSet(2, TLCGet(2) + Len(bad))
           /\ IF e.ev = "AmpObs" THEN PrintT(<<"FACTS", ToJson(Facts(e))>>) ELSE TRUE
     /\ l' = l + 1
     /\ st' = st
